@@ -516,4 +516,83 @@ for every non-empty pattern and every text. -/
 theorem findAll_eq_occurrences (p t : List Nat) (hp : 0 < p.length) : findAll p t = occurrences p t :=
   findAll_eq_occurrences_of_table p t hp (build_complete p) (build_monotone p)
 
+/-! ### the construction takes no panicking branch -/
+
+theorem climbS_eq (u : List Nat) (a : Nat) (suff : List (Option Nat))
+    (hsLt : ∀ q q' : Nat, suff[q]? = some (some q') → q' < q) (hlenS : suff.length = u.length + 1) :
+    ∀ (fuel : Nat) (T : Table) (k : Option Nat), Mid u a suff T k → (∀ k_, k = some k_ → k_ < fuel) →
+      climbS suff a (u.length + 1) fuel T k = some (climb suff a (u.length + 1) fuel T k) := by
+  intro fuel
+  induction fuel with
+  | zero =>
+    intro T k hM hf
+    cases k with
+    | none => simp [climbS, climb]
+    | some k_ => exact absurd (hf k_ rfl) (by omega)
+  | succ fuel ih =>
+    intro T k hM hf
+    cases k with
+    | none => simp [climbS, climb]
+    | some k_ =>
+      have hk : k_ < u.length := (hM.fresh k_ rfl).1
+      have hkT : k_ < T.length := by rw [hM.lenT]; exact hk
+      have hkS : k_ < suff.length := by omega
+      have hT : T[k_]? = some T[k_] := List.getElem?_eq_getElem hkT
+      have hS : suff[k_]? = some suff[k_] := List.getElem?_eq_getElem hkS
+      have hdl : delta T k_ a = lookup T[k_] a := delta_of_getElem? hT
+      simp only [climbS, climb, hT, hS, hdl]
+      cases hl : lookup T[k_] a with
+      | some s => simp
+      | none =>
+        simp only [Option.isSome_none, Bool.false_eq_true, if_false, Option.getD_some]
+        have hd : delta T k_ a = none := by rw [hdl, hl]
+        have hM' := mid_step hsLt hM hd
+        rw [hS] at hM'
+        simp only [Option.getD_some] at hM'
+        apply ih _ _ hM'
+        intro k' hk'
+        have h1 : suff[k_]? = some (some k') := by rw [hS, hk']
+        have := hsLt _ _ h1
+        have := hf k_ rfl
+        omega
+
+theorem addLetterS_eq {u : List Nat} {T : Table} {suff : List (Option Nat)} (a : Nat) (h : Inv u T suff) :
+    addLetterS (T, suff) a = some (addLetter (T, suff) a) := by
+  have hfuel : ∀ k_, (suff[u.length]?).getD none = some k_ → k_ < u.length + 1 + 1 := by
+    intro k_ hk
+    have := h.sLt _ _ (getD_none_eq_some hk)
+    omega
+  obtain ⟨k0, hS⟩ : ∃ k0, suff[u.length]? = some k0 :=
+    ⟨_, List.getElem?_eq_getElem (by have := h.lenS; omega)⟩
+  have hinit := mid_init a h
+  have hcS := climbS_eq u a suff h.sLt h.lenS (u.length + 1 + 1) T _ hinit hfuel
+  obtain ⟨T', k', hc, hM, hs⟩ := climb_spec u a suff h.sLt (u.length + 1 + 1) T _ hinit hfuel
+  rw [hc] at hcS
+  rw [hS] at hcS hc
+  simp only [Option.getD_some] at hcS hc
+  simp only [addLetterS, addLetter, h.lenT, Nat.add_sub_cancel, hS, Option.getD_some, hcS, hc]
+  cases k' with
+  | none => rfl
+  | some k_ =>
+    obtain ⟨s, hs'⟩ := hs k_ rfl
+    simp [hs']
+
+theorem foldlS_eq : ∀ (l u : List Nat) (st : Table × List (Option Nat)), Inv u st.1 st.2 →
+    l.foldl (fun st a => st.bind (addLetterS · a)) (some st) = some (l.foldl addLetter st) := by
+  intro l
+  induction l with
+  | nil => intro u st _; rfl
+  | cons a l ih =>
+    intro u st h
+    simp only [List.foldl_cons, Option.bind_some]
+    rw [addLetterS_eq (T := st.1) (suff := st.2) a h]
+    exact ih (u ++ [a]) (addLetter st a) (addLetter_inv (T := st.1) (suff := st.2) a h)
+
+/-- the construction never takes a panicking branch of `BOM::new` (no out-of-bounds `table[k_]` / `suff[k_]`,
+`unwrap` only on a present transition) and the model's fuel suffices -/
+theorem buildS_eq_build (p : List Nat) : buildS p = some (build p) := by
+  unfold buildS build
+  rw [foldlS_eq p.reverse [] ([], [none]) inv_init]
+  rfl
+
 end RbV.Bom
